@@ -1583,3 +1583,95 @@ example : let s : St Int := ⟨fun b _ => if b = 0 then 5 else if b = 1 then 7 e
     (fun a b h => by omega) (fun k i hi => by simp at hi; rcases hi with rfl | rfl <;> omega)).2.1
   exact ⟨by have := h 0 2 rfl; simp only [Nat.add_zero] at this; rw [this]; simp [s],
     by have := h 1 0 rfl; rw [this]; simp [s]⟩
+
+/-! ### Round 5: user temporaries; entry order of `ProductSpaceOperator` -/
+
+/-- Wrappers constructed WITH a user temporary `t` (`OperatorRightScalarMult(op, c, tmp=t)`,
+`OperatorComp(l, r, tmp=t)`, `OperatorSum(l, r, tmp_ran=t)`; models `rscalTmpI`, `compTmpI`,
+`sumTmpI`, run by `tree … wrap=`): for all well-formed non-functional operand trees, every
+store and all DISTINCT existing objects `x`, `y`, `t`, whatever `y` and `t` hold: the in-place
+call returns `y` holding exactly the value of the wrapper WITHOUT temporary (`den` of `.rscal`,
+`.comp`, `.sum`), and writes no object other than `y` and the temporary `t`. (The out-of-place
+calls do not touch `t` at all: they are `callO`, which writes no existing object —
+`call_out_of_place_gen`.) -/
+theorem C03.user_tmp_in_place {K : Type} [Add K] [Mul K] [OfNat K 0] (hK : CommArith K)
+    (jk : Nat → Vec K) (a b : Op K) (c : K) (ha : AllOKg False a) (hb : AllOKg False b)
+    (hfa : a.fn = false) (hfb : b.fn = false) (s : St K) (t x y : Nat)
+    (ht : t < s.next) (hx : x < s.next) (hy : y < s.next)
+    (htx : t ≠ x) (hty : t ≠ y) (hxy : x ≠ y) :
+    (∃ s', rscalTmpI jk a c t x y s = .ok y s' ∧ s'.mem y = den (.rscal a c) (s.mem x) ∧
+      ∀ k : Nat, k < s.next → k ≠ y → k ≠ t → s'.mem k = s.mem k) ∧
+    (∃ s', compTmpI jk a b t x y s = .ok y s' ∧ s'.mem y = den (.comp a b) (s.mem x) ∧
+      ∀ k : Nat, k < s.next → k ≠ y → k ≠ t → s'.mem k = s.mem k) ∧
+    (∃ s', sumTmpI jk a b t x y s = .ok y s' ∧ s'.mem y = den (.sum a b) (s.mem x) ∧
+      ∀ k : Nat, k < s.next → k ≠ y → k ≠ t → s'.mem k = s.mem k) := by
+  refine ⟨?_, ?_, ?_⟩
+  · obtain ⟨s', e1, v1, f1, _⟩ := C03.call_in_place_gen hK False jk a ha hfa
+      (s.write t (fun i => c * s.mem x i)) t y (by simpa using ht) (by simpa using hy) (Or.inr hty)
+    refine ⟨s', e1, ?_, fun k hk hky hkt => ?_⟩
+    · rw [v1, write_mem_same]; rfl
+    · rw [f1 k (by simpa using hk) hky, write_mem_other _ _ _ _ hkt]
+  · obtain ⟨s1, e1, v1, f1, n1⟩ := C03.call_in_place_gen hK False jk b hb hfb s x t hx ht
+      (Or.inr (Ne.symm htx))
+    obtain ⟨s2, e2, v2, f2, _⟩ := C03.call_in_place_gen hK False jk a ha hfa s1 t y (by omega)
+      (by omega) (Or.inr hty)
+    refine ⟨s2, by simp only [compTmpI, e1, bind_ok, e2], ?_, fun k hk hky hkt => ?_⟩
+    · rw [v2, v1]; rfl
+    · rw [f2 k (by omega) hky, f1 k hk hkt]
+  · obtain ⟨s1, e1, v1, f1, n1⟩ := C03.call_in_place_gen hK False jk a ha hfa s x t hx ht
+      (Or.inr (Ne.symm htx))
+    obtain ⟨s2, e2, v2, f2, n2⟩ := C03.call_in_place_gen hK False jk b hb hfb s1 x y (by omega)
+      (by omega) (Or.inr hxy)
+    refine ⟨s2.write y (fun i => s2.mem y i + s2.mem t i), by simp only [sumTmpI, e1, bind_ok, e2], ?_,
+      fun k hk hky hkt => ?_⟩
+    · rw [write_mem_same, v2, f2 t (by omega) hty, v1, f1 x hx (Ne.symm htx)]
+      funext i
+      exact hK.add_comm _ _
+    · rw [write_mem_other _ _ _ _ hky, f2 k (by omega) hky, f1 k hk hkt]
+
+/-- Sensitivity (seed C03-52): an out-of-place body of `OperatorRightScalarMult` that scales
+into the user temporary and hands it to an operand returning its argument (`RealPart` on a real
+space, `FlatteningOperator`) returns THE TEMPORARY ITSELF — an existing object of the
+operator's state, which the next call overwrites. The code (`callO (.rscal a c)`) returns an
+object that did not exist before (`wrapper_result_is_new_object` for the new-object nodes). -/
+theorem C03.user_tmp_out_of_place_reuse_is_wrong {K : Type} [Add K] [Mul K]
+    (jk : Nat → Vec K) (c : K) (t x : Nat) (s : St K) :
+    rscalTmpBadO jk (.leaf retInputLeaf) c t x s = .ok t (s.write t (fun i => c * s.mem x i)) := by
+  simp [rscalTmpBadO, callO, retInputLeaf]
+
+/-- Sensitivity (seed C03-51): `psoLoopI` follows `has_evaluated_row`, so `pso_in_place` holds
+for EVERY entry order (its hypothesis `EntriesOK` does not mention the order). The loop that
+compares with the row of the previous entry is wrong as soon as a row is not contiguous: for
+the 2 x 2 block operator of identities in the transposed order (0,0), (1,0), (0,1), (1,1) of
+`.adjoint`, on x = (5, 7) it leaves 7 in row 0 where the code leaves 5 + 7 = 12. -/
+theorem C03.row_grouping_assumption_is_wrong :
+    let es : List (Entry Int) := [⟨0, 0, .leaf (scalingLeaf 1)⟩, ⟨1, 0, .leaf (scalingLeaf 1)⟩,
+      ⟨0, 1, .leaf (scalingLeaf 1)⟩, ⟨1, 1, .leaf (scalingLeaf 1)⟩]
+    let s : St Int := ⟨fun b _ => if b = 0 then 5 else if b = 1 then 7 else 1000, 4⟩
+    (∃ d s', psoLoopI (fun _ _ => 99) (fun j => j) (fun i => 2 + i) es [] s = .ok d s' ∧
+        s'.mem 2 0 = 12) ∧
+    (∃ d s', psoLoopPrevRow (fun _ _ => 99) (fun j => j) (fun i => 2 + i) es none s = .ok d s' ∧
+        s'.mem 2 0 = 7) := by
+  refine ⟨⟨_, _, rfl, by decide⟩, ⟨_, _, rfl, by decide⟩⟩
+
+/-- Non-vacuity of `user_tmp_in_place`: `(2·)∘(3·)` with a user temporary over ℤ. -/
+example : ∃ s', compTmpI (fun _ _ => (99 : Int)) (.leaf (scalingLeaf 2)) (.leaf (scalingLeaf 3)) 2 0 1
+    ⟨fun b _ => if b = 0 then 5 else 1000, 3⟩ = .ok 1 s' ∧ s'.mem 1 0 = 30 := by
+  have h := (C03.user_tmp_in_place (C03.comm_arith_of_comm_ring Int) (fun _ _ => (99 : Int))
+    (.leaf (scalingLeaf 2)) (.leaf (scalingLeaf 3)) 0
+    (C03.allOK_weaken False _ (C03.scale_leaf_ok 2)) (C03.allOK_weaken False _ (C03.scale_leaf_ok 3))
+    rfl rfl ⟨fun b _ => if b = 0 then 5 else 1000, 3⟩ 2 0 1 (by simp) (by simp) (by simp)
+    (by omega) (by omega) (by omega)).2.1
+  obtain ⟨s', e1, v1, _⟩ := h
+  exact ⟨s', e1, by rw [v1]; simp [den, scalingLeaf]⟩
+
+/-- The constructor shortcut of `OperatorRightScalarMult` (`rscalCtor`: nested right
+multiplications are merged into one with the product of the scalars) does not change the value
+in any commutative ring (associativity of `*` is needed, which `CommArith` does not contain:
+over the doubles the merged operator may round differently). -/
+theorem C03.rscal_ctor_value {K : Type} [CommRing K] (a : Op K) (c : K) (x : Vec K) :
+    den (.rscal (rscalCtor a c).1 (rscalCtor a c).2) x = den (.rscal a c) x := by
+  cases a <;> simp only [rscalCtor, den]
+  congr 1; funext i; ring
+
+example : rscalCtor (.rscal (.leaf (scalingLeaf (2 : Int))) 3) 5 = (.leaf (scalingLeaf 2), 15) := rfl
